@@ -117,6 +117,7 @@ def main():
         meta["demo_clean_rc"] == 0 and meta["demo_patched_rc"] != 0 and not meta.get("suite_new_failures")
     )
     meta["detected_by"] = [p for p, v in meta["checks"].items() if v["rc"] == 1 and v["violation_lines"]]
+    meta["first_result"] = {p: {k: v.get(k) for k in ("rc", "replay_kind", "replay_key", "replay_what")} for p, v in meta["checks"].items()}
     (dst / "meta.json").write_text(json.dumps(meta, indent=1))
     print(json.dumps({k: meta[k] for k in ("name", "confirmed", "detected_by", "checks")}, indent=1))
 
